@@ -68,7 +68,9 @@ impl ScriptFormater {
 impl Formater for ScriptFormater {
     fn to_string(&self, e: Arc<ContextProps>) -> Result<String, Error> {
         let ctx = create_context(e);
-        self.0.value_of(ctx.into())?.try_into()
+        // the checker accepted the script by the type it evaluates to: an attribute that is still
+        // an object here (e.g. an array element) stands for its value
+        self.0.real_value_of(ctx.into())?.try_into()
     }
 }
 
